@@ -299,8 +299,13 @@ def run(ctx: Ctx, tier: str) -> Result:
         res.ok("C18.CHAIN", {"default resource keys": keys})
     else:
         res.fail(Finding("C18.CHAIN", "deep.api.resource", "_DEFAULT_RESOURCE", rm.relpath, "the default resource does not carry exactly the three telemetry.sdk.* identity keys: %s" % keys))
-    ds = p.func("deep.api.deep.Deep.start")
-    pm = [c for c in t.calls_in(ds) if any(x.qname == RES + ".merge" for x in t.resolve_call(c, ds).repo)]
+    ds0 = p.func("deep.api.deep.Deep.start")
+    ds, pm = ds0, []
+    for f_ in [ds0] + [x for c0 in t.calls_in(ds0) for x in t.resolve_call(c0, ds0).repo if x.cls is ds0.cls]:
+        pm = [c for c in t.calls_in(f_) if any(x.qname == RES + ".merge" for x in t.resolve_call(c, f_).repo)]
+        if pm:
+            ds = f_
+            break
     okp = False
     if len(pm) == 1:
         st = paths.stmt_of(p, pm[0])
@@ -310,8 +315,17 @@ def run(ctx: Ctx, tier: str) -> Result:
             bool(lps) and ("resource_providers" in ctx.expand.expand(lps[0].iter, ds)[0] or "ResourceProvider" in ctx.expand.expand(lps[0].iter, ds)[0])
         # the accumulated resource starts from Resource.create() and ends up in the config
         inits = [n for n in t.nodes_in(ds, ast.Assign) if norm(n.targets[0]) == acc and not paths.within(p, n, lps[0])] if lps and acc else []
-        fin = [n for n in t.nodes_in(ds, ast.Assign) if isinstance(n.targets[0], ast.Attribute) and n.targets[0].attr == "resource" and norm(n.value) == acc]
-        okp = okp and len(inits) == 1 and "Resource.create()" in norm(inits[0].value) and len(fin) == 1
+        fin = [n for n in t.nodes_in(ds0, ast.Assign) if isinstance(n.targets[0], ast.Attribute) and n.targets[0].attr == "resource"]
+        stored = False
+        for n in fin:
+            if ds is ds0:
+                stored = stored or norm(n.value) == acc
+            else:
+                rets_ = [r for r in t.nodes_in(ds, ast.Return) if r.value is not None]
+                stored = stored or (isinstance(n.value, ast.Call) and ds in t.resolve_call(n.value, ds0).repo and len(rets_) == 1 and norm(rets_[0].value) == acc) \
+                    or (isinstance(n.value, ast.Name) and any(k == "assign" and isinstance(b[1], ast.Call) and ds in t.resolve_call(b[1], ds0).repo
+                                                              for k, b in t.local_bindings(ds0, n.value.id)) and len(rets_) == 1 and norm(rets_[0].value) == acc)
+        okp = okp and len(inits) == 1 and "Resource.create()" in norm(inits[0].value) and stored
     if okp:
         res.ok("C18.CHAIN", {"plugins": "accumulated.merge(plugin resource) in plugin order, stored as the client resource"})
     else:
